@@ -170,13 +170,35 @@ def r5_r6_irrelevant(repo):
                   "find_irrelevant_type must return None for factory.get_any_type() before anything else"))
     # type variable -> bound
     rb = [n for n in iter_own_nodes(f.node) if isinstance(n, ast.Assign) and src(n.targets[0]) == et and
-          src(n.value) == "%s.bound" % et]
-    ok = len(rb) == 1 and ("isinstance(%s, tp.TypeParameter)" % et, True) in _g(rb[0])
+          ("isinstance(%s, tp.TypeParameter)" % et, True) in _g(n)]
     ub = [n for n in iter_own_nodes(f.node) if isinstance(n, ast.Return) and isinstance(n.value, ast.Call) and
           call_name(n.value) == "choose_type"]
-    ok = ok and len(ub) == 1 and any(pol and "%s.bound is None" % et in s for s, pol in _g(ub[0]))
+    ok, chain = False, False
+    bname = None
+    if len(rb) == 1:
+        v = rb[0].value
+        if isinstance(v, ast.Name):
+            bname = v.id
+            defs = [n for n in iter_own_nodes(f.node) if isinstance(n, ast.Assign) and src(n.targets[0]) == bname]
+            starts = any(src(n.value) == "%s.bound" % et for n in defs)
+            # the bound of a type variable may be a type variable again (T : U, U : Foo): the chain is followed to the
+            # first bound that is not one - searching on U itself leaves Foo "available"
+            chain = any(isinstance(w, ast.While) and "%s.is_type_var()" % bname in src(w.test) and
+                        any(isinstance(n, ast.Assign) and src(n.targets[0]) == bname and src(n.value) == "%s.bound" % bname
+                            for n in ast.walk(w)) for w in iter_own_nodes(f.node))
+            ok = starts
+        elif isinstance(v, ast.Call) and call_name(v) == "get_bound_rec":
+            ok = chain = True
+            bname = src(v)
+        elif src(v) == "%s.bound" % et:
+            ok, bname = True, "%s.bound" % et
+    ok = ok and len(ub) == 1 and bname is not None and any(pol and "%s is None" % bname in s for s, pol in _g(ub[0]))
     obs.append(Ob("C09-R5", "type-variable-replaced-by-its-bound", _w(f), ok,
                   "a type variable is replaced by its bound; an unbounded one may get any regular type"))
+    obs.append(Ob("C09-R5", "chain-of-type-variable-bounds-followed", _w(f, rb[0] if rb else None), ok and chain,
+                  "the bound of a type variable may itself be a type variable (T : U, U : Foo): the replacement must follow "
+                  "the chain (`while b.is_type_var(): b = b.bound`, or get_bound_rec) - otherwise the search runs on U and "
+                  "Foo, a supertype of everything T can be, is returned as irrelevant"))
     # the pool
     pools = [n for n in iter_own_nodes(f.node) if isinstance(n, ast.Assign) and isinstance(n.value, ast.ListComp)
              and any("not in" in src(i) for i in n.value.generators[0].ifs)]
@@ -499,9 +521,20 @@ def _t_rename(tree):
     V.rename_local(f, "t_set", "found")
 
 
+def _v_direct_bound_only(tree):
+    """the repaired defect: the search runs on the direct bound, which may be a type variable"""
+    f = V.find_def(tree, "find_irrelevant_type")
+    ws = [n for n in ast.walk(f) if isinstance(n, ast.While) and "is_type_var()" in ast.unparse(n.test)]
+    if not ws:
+        raise V.SkipVariant("bound chain loop")
+    V.remove_stmt(tree, ws[0])
+
+
 def variants():
     t = "src/ir/type_utils.py"
     return [
+        V.Variant("find_irrelevant_type searches on the direct bound of a type variable only (the repaired defect)",
+                  "src/ir/type_utils.py", _v_direct_bound_only, {"C09-R5"}),
         V.Variant("etype.is_subtype(candidate)", t, _v_reversed, {"C09-R1"}),
         V.Variant("same-named candidates accepted untested", t, _v_unfiltered_add, {"C09-R1"}),
         V.Variant("discard dropped", t, _v_drop_discard, {"C09-R2"}),
